@@ -320,12 +320,12 @@ def add_leaves(spec, rng: random.Random, max_leaves: int = 2) -> int:
     return k
 
 
-def add_fast_sinks(spec, rng: random.Random) -> int:
+def add_fast_sinks(spec, rng: random.Random, max_levels: int = 2) -> int:
     """Adds a chain of consumer-only nodes, each up to 3x faster than its source (rule 2 is per connection), so that one node kind runs
     9-27x as often as the supervisor: more than 10 slots of one kind per partition in the uniform (scan) execution paths."""
     src = max(range(len(spec["nodes"])), key=lambda i: spec["nodes"][i]["rate"])
     added = 0
-    for j in range(rng.choice([1, 2, 2])):
+    for j in range(min(max_levels, rng.choice([1, 2, 2]))):
         i = len(spec["nodes"])
         rate = round(spec["nodes"][src]["rate"] * rng.choice([2, 3, 3]), 3)
         per = 1.0 / rate
